@@ -89,7 +89,7 @@ def _case(draw):
         ['int64', 'uint64', 'int32', 'uint32'])), 'nsw': nsw, 'chans': chans, 'common': common,
         'factor': draw(st.sampled_from(FACTORS)), 'cache': draw(st.booleans()),
         'queries': queries, 'id_step': draw(st.integers(1, 3)),
-        'preexisting': draw(st.booleans())}
+        'preexisting': draw(st.booleans()), 'ro': draw(st.booleans())}
 
 
 def _large_cases(th):
@@ -149,6 +149,10 @@ def check(case):
         r, A = o.reader, o.A
         # -- route 1: direct extraction (one channel list for all spikes) -----------------------
         common = np.array(case['common'], dtype=np.int64)
+        if case.get('ro'):
+            # arrays that come from np.load(mmap_mode='r') or another owner are read-only
+            ss.setflags(write=False)
+            common.setflags(write=False)
         exp = np.stack([window(A, s, nsw, case['common']) for s in spikes]) if ns else \
             np.zeros((0, nsw, len(common)), dtype=A.dtype)
         for what, traces in (('extract_waveforms(reader)', r), ('extract_waveforms(array)', A)):
@@ -157,6 +161,8 @@ def check(case):
         # -- route 2: chunk-by-chunk export ----------------------------------------------------
         nloc = len(case['chans'][0]) if ns else 2
         sc = np.array(case['chans'], dtype=np.int32).reshape((ns, nloc))
+        if case.get('ro'):
+            sc.setflags(write=False)
         path = o.dir / 'wave.npy'
         if case.get('preexisting'):
             # an earlier export (of something else) already sits at the target path
@@ -175,6 +181,12 @@ def check(case):
             expw[i] = window(A, s, nsw, case['chans'][i]).astype(np.float64) * factor
         same_array('exported waveforms (window x factor, spike order)', loaded, expw, key='export',
                    dtype=False)
+        # the caller's arrays are inputs only
+        require(np.array_equal(ss, np.array(spikes, dtype=case['sdt'])) and
+                np.array_equal(sc, np.array(case['chans'], dtype=np.int32).reshape((ns, nloc))) and
+                np.array_equal(common, np.array(case['common'], dtype=np.int64)),
+                'an input array (spike samples / channels) was modified', key='input-mutated',
+                observed=(ss, sc, common))
         # -- route 3: lookup in the spike-subset store --------------------------------------------
         if ns:
             ids = np.array([2 + case['id_step'] * i for i in range(ns)], dtype=np.int64)
@@ -242,6 +254,8 @@ def classify(case, info):
         labels.append('export-over-existing-file')
     if lay.get('nonfinite'):
         labels.append('non-finite-samples')
+    if case.get('ro'):
+        labels.append('read-only-input-arrays')
     if len(case['spikes']) * case['nsw'] * len(case['chans'][0] if case['chans'] else []) * 8 > 2 ** 24:
         labels.append('chunk-of-waveforms>16MiB')
     return labels, nt
